@@ -75,6 +75,11 @@ def jobs(tier, seed):
             k += 1
             out.append({'fn': 'quantize', 'cfg': {'pair': pr, 'flav': fl, 'quant': qv, 'den': DENS[k % len(DENS)],
                                                   'mode': mode, 'explicit': bool(k % 3)}, 'opts': dict(SLOW)})
+    # units of equal scale (the quantum's unit is another object than the quantity's): the result keeps the
+    # quantity's own unit
+    for i, pr in enumerate((['l', 'dm³'], ['dm³', 'l'], ['J', 'Nm'], ['Ws', 'J'], ['N', 'J/m'], ['ml', 'cm³'])):
+        out.append({'fn': 'quantize', 'cfg': {'pair': pr, 'flav': ('dec', 'frac')[i % 2], 'quant': quants[i % 6], 'den': DENS[i],
+                                              'mode': MODES[(3 * i) % 8], 'explicit': bool(i % 2)}, 'opts': dict(SLOW)})
     # every mode x flavour x explicit/default on one fixed pair, all quanta
     for m in MODES:
         for fl in ('dec', 'frac'):
